@@ -47,6 +47,83 @@ theorem loan_lives_while_used (live : List Loan) (rest : List Event) (l : Loan) 
 theorem loan_ends_after_last_use (live : List Loan) (rest : List Event) (l : Loan) (hu : usedLater l.ref rest = false) :
     l ∉ expire live rest := expire_drops_unused live rest l hu
 
+/-! ### a function cannot return a reference to one of its locals -/
+
+theorem bindingBase_refused (v : RVar) (hr : v.isRefVar = true) (hc : v.inCallee = true) :
+    ∃ b, v.bindingBase = some b ∧ b.refused = true := by
+  induction v with
+  | localVal => simp [RVar.isRefVar] at hr
+  | paramVal => simp [RVar.isRefVar] at hr
+  | paramRef => simp [RVar.inCallee] at hc
+  | refTo w ih =>
+    cases w with
+    | localVal => exact ⟨.localVal, rfl, rfl⟩
+    | paramVal => exact ⟨.paramVal, rfl, rfl⟩
+    | paramRef => simp [RVar.inCallee] at hc
+    | refTo u =>
+      have := ih (by simp [RVar.isRefVar]) (by simpa [RVar.inCallee] using hc)
+      simpa [RVar.bindingBase] using this
+
+theorem bindingBase_dangling (v : RVar) (b : RVar) (hb : v.bindingBase = some b) (hr : b.refused = true) : v.inCallee = true := by
+  induction v with
+  | localVal => simp [RVar.bindingBase] at hb
+  | paramVal => simp [RVar.bindingBase] at hb
+  | paramRef => simp [RVar.bindingBase] at hb
+  | refTo w ih =>
+    cases w with
+    | localVal => rfl
+    | paramVal => rfl
+    | paramRef => simp [RVar.bindingBase] at hb
+    | refTo u => simpa [RVar.inCallee] using ih (by simpa [RVar.bindingBase] using hb)
+
+/-- EXACTNESS, for reference chains of any length: a return is rejected exactly when the returned reference points into the
+    callee's frame — a local value, a by-value parameter or receiver, directly or through any number of local reference
+    variables bound to one another; a reference that points outside (through a reference parameter) may be returned, also
+    re-borrowed through local reference variables -/
+theorem return_rejected_iff_dangling (f : RetForm)
+    (hwf : match f with | .ident v => v.isRefVar = true | .borrow _ => True) : retRejects f = f.dangling := by
+  have key : ∀ v : RVar, v.isRefVar = true →
+      (match v.bindingBase with | some b => b.refused | none => false) = v.inCallee := by
+    intro v hr
+    cases hc : v.inCallee with
+    | true =>
+      obtain ⟨b, hb, hrb⟩ := bindingBase_refused v hr hc
+      simp [hb, hrb]
+    | false =>
+      cases hb : v.bindingBase with
+      | none => rfl
+      | some b =>
+        cases hrb : b.refused with
+        | false => simp [hrb]
+        | true => rw [bindingBase_dangling v b hb hrb] at hc; cases hc
+  cases f with
+  | borrow v =>
+    cases hr : v.isRefVar with
+    | true => simp only [retRejects, hr, if_true, RetForm.dangling]; exact key v hr
+    | false =>
+      cases v with
+      | localVal => rfl
+      | paramVal => rfl
+      | paramRef => simp [RVar.isRefVar] at hr
+      | refTo w => simp [RVar.isRefVar] at hr
+  | ident v => simp only [retRejects, RetForm.dangling]; exact key v hwf
+
+theorem dangling_return_rejected (f : RetForm)
+    (hwf : match f with | .ident v => v.isRefVar = true | .borrow _ => True) (h : f.dangling = true) : retRejects f = true := by
+  rw [return_rejected_iff_dangling f hwf]; exact h
+
+/-- the check as delivered had two defects, both repaired: by-value parameters were not refused
+    (`fn f(p: P) -> &i32 { return &p.Y; }` was accepted and returned a pointer into the dead frame), and a re-borrow through a
+    local reference variable was refused even when that variable points outside
+    (`fn f(p: &'P) -> &'i32 { let q: &'P = p; return &'q.Y; }`) -/
+theorem old_value_param_witness :
+    retRejectsOld (.borrow .paramVal) = false ∧ (RetForm.borrow .paramVal).dangling = true ∧ retRejects (.borrow .paramVal) = true := by decide
+theorem old_reborrow_overstrict_witness :
+    retRejectsOld (.borrow (.refTo .paramRef)) = true ∧ (RetForm.borrow (.refTo .paramRef)).dangling = false
+      ∧ retRejects (.borrow (.refTo .paramRef)) = false := by decide
+
+example : retRejects (.ident (.refTo (.refTo (.refTo .localVal)))) = true ∧ retRejects (.ident (.refTo (.refTo .paramRef))) = false := by decide
+
 -- examples: `let m = &'x.A; x.A = 1; use m` is rejected at the write, with the use removed it is accepted; disjoint fields are fine
 example : check 0 [] [.borrow 0 ⟨1, [.fld 0]⟩ true, .write ⟨1, [.fld 0]⟩, .use 0] = some 1 := by decide
 example : accepts [.borrow 0 ⟨1, [.fld 0]⟩ true, .write ⟨1, [.fld 0]⟩] = true := by decide
